@@ -124,8 +124,42 @@ def run(chk):
   payloads[0]['direct'] = direct
   payloads[1]['mesh'] = mesh
   payloads[2]['boxed'] = boxed
+  # StateAxes with the filters in any order (nnx.vmap / nnx.scan with transform_metadata) and nn.add_metadata_axis over two collections
+  sa_cases = [{'order': o, 'k': k, 'other': other, 'annotate_stat': ann, 'form': form, 'n': 4}
+              for o in ('int_first', 'int_last', 'int_middle') for k in (0, 1, 2) for other, form in ((None, 'vmap'), (None, 'scan'), ('carry', 'scan')) for ann in (False, True)]
+  if not thorough:
+    sa_cases = [c for i, c in enumerate(sa_cases) if (i + chk.seed) % 3 == 0]
+  ma_cases = [{'p_axis': p, 's_axis': q} for p in (0, 1, 2) for q in (0, 1)]
+  payloads[3]['stateaxes'] = sa_cases
+  payloads[4]['metaaxis'] = ma_cases
   results = common.run_impl_parallel('impl_c19.py', payloads, workers=W)
   dres, mres, bres = results[0]['direct'], results[1]['mesh'], results[2]['boxed']
+  ins = lambda seq, k, v: list(seq[:k]) + [v] + list(seq[k:])
+  for c, o in zip(sa_cases, results[3]['stateaxes']):
+    chk.count({'nnx_stateaxes': c}, c['order'] != 'int_first')
+    if 'err' in o:
+      chk.violation('oracle', 'nnx.%s with StateAxes (%s, Param on axis %d) and transform_metadata raised %s' % (c['form'], c['order'], c['k'], o['err']), {'case': c, 'msg': o.get('msg')})
+      continue
+    r = o['ok']
+    stat_names = ['dout'] if c['annotate_stat'] else None
+    want_created = {'w_shape': ins([2, 3], c['k'], 4), 'w_names': ins(['din', 'dout'], c['k'], 'L'), 's_shape': [3], 's_names': stat_names}
+    want_inside = {'w': [[2, 3], ['din', 'dout']], 's': [[3], stat_names]}
+    got_inside = {kk: list(vv) for kk, vv in r['inside'].items()}
+    if r['created'] != want_created:
+      what = 'after creation under nnx.vmap(out_axes=StateAxes) the partition name is not at the stacking axis of the stacked Variable only'
+    elif got_inside != want_inside:
+      what = 'inside the transform the sliced Variable still carries the partition name (or another Variable lost a name)'
+    elif r['after'] != {'w_shape': want_created['w_shape'], 'w_names': want_created['w_names'], 's_names': stat_names} or r['spec'] != want_created['w_names']:
+      what = 'after the transform the names of the stacked Variable / get_partition_spec are not those it had before'
+    else:
+      continue
+    chk.violation('oracle', 'nnx.%s, StateAxes filters in the order %s: %s' % (c['form'], c['order'], what), {'case': c, 'observed': r, 'expected_created': want_created, 'expected_inside': want_inside})
+  for c, o in zip(ma_cases, results[4]['metaaxis']):
+    chk.count({'linen_add_metadata_axis': c}, c['p_axis'] != c['s_axis'])
+    want = {'kernel': ins(['in', 'out'], c['p_axis'], 'stack'), 'mean': ins(['feat'], c['s_axis'], 'stack')}
+    if 'err' in o or o['ok']['vmap'] != want or o['ok']['meta_only'] != want:
+      chk.violation('oracle', 'nn.vmap / nn.add_metadata_axis with variable_axes params:%d stats:%d do not insert the partition name at the declared axis of each collection' % (c['p_axis'], c['s_axis']),
+                    {'case': c, 'observed': o, 'expected': want})
   lres = [None] * len(tcases)
   nres = [None] * len(tcases)
   for k, r in enumerate(results):
